@@ -420,7 +420,14 @@ macro_rules! idm {
 
 /// An operand's jump into the caller's loop, taken exactly once per run (see gen/probe.py, loop_mode).
 pub fn jump_once() -> bool {
-    crate::log::once_per_run()
+    if crate::log::once_per_run() {
+        // whatever the abandoned iteration evaluated before the jump (hoisted captures, earlier branches) is evaluated
+        // again by the iteration that completes: the run that is judged starts here
+        crate::log::clear();
+        true
+    } else {
+        false
+    }
 }
 /// The macro evaluation completed in iteration `lp` of the caller's loop: after one taken `continue` that must be 1 (0 if
 /// the program has no operand that jumps).
